@@ -674,7 +674,41 @@ impl Prop for C02 {
             if rng.chance(1, 3) {
                 elems.push(Pat::Bgp(vec![(Term::Var(2), Term::Const(rng.pick(&u.preds).clone()), Term::Var(4))]));
             }
-            let pat = Pat::Group(elems);
+            // keep the answer (and every intermediate result the model has to build) to a few thousand rows
+            let view_all = View { dflt: vec![None], named: u.graphs.clone() };
+            while elems.len() > 1 {
+                let out = run_pattern(&db, &view_all, &Pat::Group(elems.clone()), "keep:fresh:0:0");
+                if out.matches(';').count() < 700 {
+                    break;
+                }
+                elems.pop();
+            }
+            if let Pat::Bgp(tps) = &mut elems[0] {
+                let out = run_pattern(&db, &view_all, &Pat::Group(vec![Pat::Bgp(tps.clone())]), "keep:fresh:0:0");
+                if out.matches(';').count() >= 700 {
+                    // fall back to constant predicates on both patterns
+                    tps[1].1 = p0.clone();
+                }
+            }
+            let mut pat = Pat::Group(elems);
+            if rng.chance(1, 2) {
+                // solution modifiers of a sub-select over many rows: duplicates after projection that are not adjacent in the
+                // plan's emission order, ties on the ORDER BY key, groups with many members
+                stats.hit("large_under_subselect_modifiers");
+                let mut vs = Vec::new();
+                pat_vars(&pat, &mut vs);
+                let mut spec = Spec::star();
+                let keep = rng.range(1, 2.min(vs.len()));
+                let mut pv = vs.clone();
+                rng.shuffle(&mut pv);
+                pv.truncate(keep);
+                spec.proj = Some(pv.iter().map(|v| Item::Var(*v)).collect());
+                spec.distinct = rng.chance(3, 4);
+                if rng.chance(3, 4) {
+                    spec.order = vec![(pv[0], rng.chance(1, 2))];
+                }
+                pat = Pat::Group(vec![Pat::Sub(spec, Box::new(pat))]);
+            }
             let joins = *rng.pick(&["keep", "allbind", "allbind", "rnd", "allhash", "allnl"]);
             let st = *rng.pick(&["fresh", "stale", "empty"]);
             let pool = *rng.pick(&[2usize, 3, 7, 16]);
